@@ -75,7 +75,8 @@ add("C05", "other",
     "emitted before, every operand selector exists, every reference is a variable; and (ParserShape.v) every tree the grammar model "
     "returns has that shape and the resolver model keeps it, so for every input text, every tree parsed from it and every compiler "
     "state the compiler returns code or a refusal (C05_no_input_makes_the_compiler_panic); the shape is also evaluated on every "
-    "resolved tree of the run (chk_wfb). Not proved: that compiled code never drives the VM into an internal fault. "
+    "resolved tree of the run (chk_wfb). For the while-language over globals (C01) compiled code never drives the VM model "
+    "into Abort, whatever the fuel (C05_statement_runs_never_abort). Not proved: the same for calls, closures and generators. "
     "Decided each run on adversarial programs run on the real code with panics recovered and a time "
     "limit: every operator x 21 operands of every type in 23 statement shapes, the generator's adversarial profile, token-mutated "
     "valid sessions; any recovered panic or undocumented error is a violation; the VM model (each Go panic site = Abort) must agree.",
